@@ -116,9 +116,13 @@ enum Step {
 	Crash,
 	Lock(usize),
 	Unlock(usize),
+	/// one step of the reindex worker (moves a batch of counters from an outgrown reference count table)
+	Reindex,
 }
 
 struct Case {
+	/// hook H7: a new reference count table has 2^rc_bits chunks of 32 counters (0: the built-in 2^16)
+	rc_bits: u8,
 	rc: bool,
 	append_only: bool,
 	nkeys: usize,
@@ -193,10 +197,16 @@ fn gen_case(rng: &mut Rng) -> Case {
 	// postponed, so new trees may still reuse their nodes until the lock is released
 	let mut zombies: Vec<(usize, STree)> = Vec::new();
 	let mut steps = Vec::new();
+	let mut rc_bits = 0u8;
 	// wide sharing: one transaction takes references to a few hundred different nodes of a live tree, so that
 	// many reference counters change in one log record (some of them in the same chunk of the counter table)
 	if !append_only && rng.chance(1, 12) {
 		let f1 = rng.range(200, 255) as usize;
+		// two in three with a small counter table (64-256 counters): the sharer's references outgrow it, a bigger
+		// table is started and the old one waits for the reindex worker
+		if rng.chance(2, 3) {
+			rc_bits = rng.range(1, 3) as u8;
+		}
 		let t1 = STree {
 			data: rng.range(1, 1 << 30),
 			children: (0..f1)
@@ -229,6 +239,9 @@ fn gen_case(rng: &mut Rng) -> Case {
 		}
 		steps.push(Step::Commit(vec![Op::Insert(1, t2.clone())]));
 		steps.extend([Step::Process, Step::Process, Step::Flush, Step::Enact, Step::Clean]);
+		if rc_bits != 0 && rng.chance(1, 2) {
+			steps.extend([Step::Reindex, Step::Flush, Step::Enact]);
+		}
 		if rng.chance(1, 2) {
 			steps.push(Step::Reopen);
 		}
@@ -240,7 +253,14 @@ fn gen_case(rng: &mut Rng) -> Case {
 			// the sharer goes first
 			steps.push(Step::Commit(vec![Op::Deref(1)]));
 			shadow[1] = None;
-			steps.extend([Step::Process, Step::Process, Step::Flush, Step::Enact]);
+			steps.extend([Step::Process, Step::Process]);
+			// the reindex worker may run while the removals are logged but not yet in the table files
+			if rc_bits != 0 && rng.chance(2, 3) {
+				for _ in 0..rng.range(1, 3) {
+					steps.push(Step::Reindex);
+				}
+			}
+			steps.extend([Step::Flush, Step::Enact]);
 		}
 	}
 	let nsteps = rng.range(10, 40);
@@ -381,11 +401,25 @@ fn gen_case(rng: &mut Rng) -> Case {
 			}
 		}
 	}
+	if rc_bits == 0 && !append_only && rng.chance(1, 6) {
+		// the smallest counter table for an ordinary history
+		rc_bits = 1;
+	}
+	if rc_bits != 0 {
+		// the reindex worker runs at random moments
+		for _ in 0..rng.range(1, 6) {
+			let at = rng.below(steps.len() as u64 + 1) as usize;
+			steps.insert(at, Step::Reindex);
+		}
+	}
 	for _ in 0..6 {
 		steps.push(Step::Process);
 	}
+	if rc_bits != 0 {
+		steps.extend([Step::Reindex, Step::Reindex]);
+	}
 	steps.extend([Step::Flush, Step::Enact, Step::Clean, Step::Reopen]);
-	Case { rc, append_only, nkeys, steps }
+	Case { rc_bits, rc, append_only, nkeys, steps }
 }
 
 /// the generator's bookkeeping of live trees (accepted transactions only)
@@ -469,6 +503,7 @@ fn case_tokens(c: &Case) -> Vec<u64> {
 			Step::Crash => t.push(7),
 			Step::Lock(k) => t.extend_from_slice(&[9, *k as u64]),
 			Step::Unlock(k) => t.extend_from_slice(&[10, *k as u64]),
+			Step::Reindex => t.push(8),
 		}
 	}
 	t
@@ -607,6 +642,7 @@ pub fn main(args: &[String]) -> i32 {
 		let mut shared = false;
 		let mut had_lock_deref = false;
 		let res = std::panic::catch_unwind(std::panic::AssertUnwindSafe(|| {
+			parity_db::verif::set_first_ref_count_bits(case.rc_bits);
 			let mut db = Some(Db::open_or_create(&opts).expect("create"));
 			// property-level bookkeeping
 			let mut spec: Vec<Option<(Exp, u64)>> = vec![None; case.nkeys];
@@ -696,6 +732,7 @@ pub fn main(args: &[String]) -> i32 {
 						status = d.enact_logs().map(|_| 0).unwrap_or(104)
 					},
 					Step::Clean => status = d.clean_logs().map(|_| 0).unwrap_or(104),
+					Step::Reindex => status = d.process_reindex().map(|_| 0).unwrap_or(108),
 					Step::Reopen => {
 						guards.clear();
 						drop(db.take());
@@ -804,6 +841,14 @@ pub fn main(args: &[String]) -> i32 {
 		match verdict {
 			Ok(()) => oracle.push_str("ok\n"),
 			Err(e) => oracle.push_str(&format!("FAIL {e}\n")),
+		}
+		if case.rc_bits != 0 {
+			*dist.entry("histories-with-small-counter-table".into()).or_insert(0) += 1;
+			// refcount_00_<bits> files: a table of more bits than the first one means the table grew
+			let grown = std::fs::read_dir(&dir).map(|rd| rd.flatten().filter_map(|e| e.file_name().to_string_lossy().strip_prefix("refcount_00_").and_then(|b| b.parse::<u8>().ok())).any(|b| b > case.rc_bits)).unwrap_or(false);
+			if grown {
+				*dist.entry("histories-whose-counter-table-grew".into()).or_insert(0) += 1;
+			}
 		}
 		*dist.entry(if case.append_only { "append-only" } else if case.rc { "counted" } else { "plain-multitree" }.to_string()).or_insert(0) += 1;
 		if shared {
